@@ -75,7 +75,12 @@ class PolynomialApproximationSpace(ApproximationSpace):
             np.ndarray: Value of the basis function.
 
         """
-        i, j = divmod(k, self.degree + 1)
+        # Enumerate the exponents (i, j) with i + j <= degree: for each i, j runs over
+        # 0, ..., degree - i.
+        i, j = 0, k
+        while j > self.degree - i:
+            j -= self.degree - i + 1
+            i += 1
         return x[..., 0] ** i * x[..., 1] ** j
 
 
